@@ -6,3 +6,4 @@ pub mod fields;
 pub mod hand;
 pub mod ser;
 pub mod positive;
+pub mod literals;
